@@ -212,7 +212,7 @@ def main(run):
         def klass(base):
             if not generic and use_rots and sym:
                 le = _lattice_equiv(rots)
-                sh_ = [int(bool(v)) for v in gp._is_shift]
+                sh_ = _public_is_shift(gp)
                 if any(le[i] and sh_[a] != sh_[b] for i, (a, b) in enumerate(((1, 2), (2, 0), (0, 1)))):
                     return "half-shift-unequal-on-equivalent-axes"
             if generic:
@@ -236,7 +236,7 @@ def main(run):
         # (i) every grid point is the image of its representative (only meaningful without generic shift: there
         #     the table refers to the unshifted base mesh)
         if not generic:
-            s_int = np.array(gp._is_shift, dtype=float)
+            s_int = np.array(_public_is_shift(gp), dtype=float)
             qall = (np.array(gp.grid_address, dtype=float) + s_int * 0.5) / np.array(mesh, dtype=float)
             okimg = True
             for g in range(N):
@@ -308,8 +308,9 @@ def main(run):
         run.count("oracle-length2mesh", section="oracle")
         # oracle: symmetric mesh numbers where the lattice vectors are equivalent
         if with_rots:
-            gpx = GridPoints(got, rec_lat, rotations=rots)
-            if not gpx._has_mesh_symmetry():
+            # (public ingredients only: the equivalence flags of the rotations and the mesh numbers)
+            lev = _lattice_equiv(rots)
+            if any(lev[i] and got[a] != got[b] for i, (a, b) in enumerate(((1, 2), (2, 0), (0, 1)))):
                 run.violation("length2mesh", "mesh-not-symmetric", "length-specified mesh %s lacks the symmetry of the lattice" % list(got),
                               dict(cell=key[0], pmat=key[1], length=length))
     for _ in range(40 if thorough else 15):
@@ -360,6 +361,7 @@ def main(run):
 
     # ------------------------------------------------------------ end-to-end through the Phonopy API
     _end_to_end(run, rng, thorough, lines, meta)
+    _large_mesh(run, rng, thorough)
 
     # ------------------------------------------------------------ compare with the model
     out = common.lean_run_driver("C09", lines)
@@ -496,11 +498,19 @@ def _lattice_equiv(rots):
     return get_lattice_vector_equivalence([np.array(r).T for r in rots])
 
 
+def _public_is_shift(gp):
+    """half-shift flags from public attributes only: q_ir = (grid_address[ir] + s/2) / mesh"""
+    q0 = np.array(gp.qpoints[0], dtype=float)
+    a0 = np.array(gp.grid_address[gp.ir_grid_points[0]], dtype=float)
+    return [int(v) for v in np.rint(2 * (q0 * np.array(gp.mesh_numbers, dtype=float) - a0)).astype(int) % 2]
+
+
 def _same_grid(gp, m, info):
     if m is None:
         return False, "model returned an error"
-    if [int(bool(v)) for v in gp._is_shift] != m["is_shift"]:
-        return False, "is_shift %s vs %s" % (list(gp._is_shift), m["is_shift"])
+    generic_ = U.expected_full_qpoints(info["mesh"], info["shift"], info["is_gamma_center"])[1]
+    if not generic_ and _public_is_shift(gp) != m["is_shift"]:
+        return False, "is_shift %s vs %s" % (_public_is_shift(gp), m["is_shift"])
     if [int(v) for v in gp.grid_mapping_table] != m["table"]:
         return False, "mapping table"
     if [int(v) for v in gp.ir_grid_points] != m["ir"]:
@@ -519,6 +529,66 @@ def _same_grid(gp, m, info):
         if not (qi == qm).all():
             return False, "q-points (exact)"
     return True, ""
+
+
+def _large_mesh(run, rng, thorough):
+    """SIZE: dense meshes with 1500-4000 irreducible q-points on low-symmetry 1-3 atom cells: thermal properties (compiled
+    path) and moments with mesh symmetry on vs off, and vs the weighted formula evaluated in numpy on the ir points' own
+    frequencies."""
+    from phonopy.units import EvTokJmol, Kb, THzToEv
+
+    plans = [("triclinic", lambda: [rng.randint(13, 16) for _ in range(3)]), ("mono_P", lambda: [rng.randint(17, 21)] * 3),
+             ("rhombo", lambda: [rng.randint(25, 28)] * 3), ("mono_C", lambda: [rng.randint(17, 20)] * 3)]
+    chosen = plans if thorough else [plans[0], rng.choice(plans[1:])]
+    for name, mk in chosen:
+        cell, cen = U.make_cell(name)
+        ph = gen.make_phonopy(cell, np.diag([2, 2, 2]), pmat="auto" if cen != "P" else "P")
+        ph.force_constants = gen.pair_fc(ph.supercell, min(0.9 * gen.min_lattice_vector(ph.supercell.cell), 5.0))
+        mesh = mk()
+        gamma = rng.random() < 0.5
+        temps = dict(t_min=0, t_max=900, t_step=300, cutoff_frequency=0.05)
+        order = rng.choice([1, 2, 3])
+        res = {}
+        for sym in (True, False):
+            ph.run_mesh(mesh, is_mesh_symmetry=sym, is_gamma_center=gamma)
+            md = ph.get_mesh_dict()
+            fr, w = np.array(md["frequencies"]), np.array(md["weights"], dtype=float)
+            ph.run_thermal_properties(**temps)
+            tp = ph.get_thermal_properties_dict()
+            got = np.array([tp["free_energy"], tp["entropy"], tp["heat_capacity"]])
+            # the definition in numpy on the very frequencies/weights of this mesh
+            T = np.array(tp["temperatures"], dtype=float)
+            e = np.where(fr > 0.05, fr, np.nan) * THzToEv
+            ref = np.zeros((3, len(T)))
+            for it, t in enumerate(T):
+                if t > 0:
+                    x = e / (Kb * t)
+                    f_ = Kb * t * np.log1p(-np.exp(-x)) + e / 2
+                    s_ = x / np.expm1(x) - np.log1p(-np.exp(-x))
+                    c_ = x * x * np.exp(-x) / (1 - np.exp(-x)) ** 2
+                else:
+                    f_, s_, c_ = e / 2, np.zeros_like(e), np.zeros_like(e)
+                wn = w[:, None] / w.sum()
+                ref[0, it] = np.nansum(wn * f_) * EvTokJmol
+                ref[1, it] = np.nansum(wn * s_) * Kb * EvTokJmol * 1000
+                ref[2, it] = np.nansum(wn * c_) * Kb * EvTokJmol * 1000
+            ph.run_moment(order=order)
+            res[sym] = (got, ref, float(ph.get_moment()), len(w), int(w.sum()))
+            cd = dict(cell=name, mesh=mesh, is_gamma_center=gamma, is_mesh_symmetry=sym, n_irreducible=len(w), force_constants="gen.pair_fc, 2x2x2")
+            rel = float(np.abs(got - ref).max() / max(1.0, np.abs(ref).max()))
+            run.count("oracle-large-mesh-thermal-vs-definition", section="oracle")
+            if rel > 1e-8:
+                run.violation("Phonopy.run_thermal_properties", "thermal-properties-ne-weighted-formula" + ("-weighted" if w.max() > 1 else ""),
+                              "thermal properties differ from sum_q w_q f(nu_q)/sum_q w_q on the mesh's own frequencies by rel. %.3g (%d irreducible q-points)" % (rel, len(w)), cd)
+        a, b = res[True], res[False]
+        run.case(("large", name, tuple(mesh), gamma), nontrivial=a[3] > 1024)
+        run.count("large meshes: irreducible points %d" % (1000 * (a[3] // 1000)))
+        rel = max(float(np.abs(a[0] - b[0]).max() / max(1.0, np.abs(b[0]).max())), abs(a[2] - b[2]) / max(1.0, abs(b[2])))
+        run.count("oracle-large-mesh-on-off", section="oracle")
+        if a[4] != b[4] or rel > 1e-8:
+            run.violation("Phonopy.run_mesh", "mesh-symmetry-on-ne-off-large-mesh",
+                          "thermal properties / moment differ between is_mesh_symmetry on (%d irreducible points) and off (%d points) by rel. %.3g" % (a[3], b[3], rel),
+                          dict(cell=name, mesh=mesh, is_gamma_center=gamma, force_constants="gen.pair_fc, 2x2x2"))
 
 
 def _end_to_end(run, rng, thorough, lines, meta):
